@@ -598,6 +598,15 @@ pub fn fuzz_stage(
         let art = base.join(format!("art{}/", w));
         let _ = std::fs::create_dir_all(&art);
         let seed = (sub_seed(ctx.seed, target, w as u64) % 0x7fff_fffe) + 1;
+        // stderr goes to a file: libFuzzer is chatty and a full pipe would block the worker
+        let log_path = base.join(format!("worker{}.log", w));
+        let log = match std::fs::File::create(&log_path) {
+            Ok(f) => f,
+            Err(e) => {
+                st.note(format!("cannot create fuzz log: {}", e));
+                continue;
+            }
+        };
         let child = std::process::Command::new(&bin)
             .arg(&corpus)
             .arg(format!("-runs={}", runs))
@@ -610,20 +619,20 @@ pub fn fuzz_stage(
             .env("RUST_BACKTRACE", "0")
             .stdin(std::process::Stdio::null())
             .stdout(std::process::Stdio::null())
-            .stderr(std::process::Stdio::piped())
+            .stderr(std::process::Stdio::from(log))
             .spawn();
         match child {
-            Ok(c) => children.push(c),
+            Ok(c) => children.push((c, log_path)),
             Err(e) => st.note(format!("cannot start fuzz worker: {}", e)),
         }
     }
     let mut viol: Option<Violation> = None;
-    for c in children {
-        let out = match c.wait_with_output() {
+    for (mut c, log_path) in children {
+        let status = match c.wait() {
             Ok(o) => o,
             Err(_) => continue,
         };
-        let err = String::from_utf8_lossy(&out.stderr).into_owned();
+        let err = std::fs::read(&log_path).map(|b| String::from_utf8_lossy(&b).into_owned()).unwrap_or_default();
         let mut executed = 0u64;
         for l in err.lines() {
             if let Some(r) = l.strip_prefix("stat::number_of_executed_units:") {
@@ -655,9 +664,9 @@ pub fn fuzz_stage(
                     None => st.note(format!("unreadable fuzz report {}", path)),
                 }
             }
-        } else if !out.status.success() {
+        } else if !status.success() {
             let tail: Vec<&str> = err.lines().rev().take(6).collect();
-            st.note(format!("fuzz worker for {} ended with {:?}: {}", target, out.status.code(), tail.join(" | ")));
+            st.note(format!("fuzz worker for {} ended with {:?}: {}", target, status.code(), tail.join(" | ")));
         }
     }
     // count corpus growth as the distinct non-trivial inputs of this stage
